@@ -340,10 +340,10 @@ func planFaults(r *rng, p *Project, ref *simrt.Disk, n int) []simrt.PlannedFault
 		}
 		e := ref.Log[ci]
 		k := kinds[r.n(len(kinds))]
-		if e.Op == "stat" && k >= simrt.FTorn {
+		if !isReadOp(e.Op) && k >= simrt.FTorn {
 			// content faults do not apply to stat: move to the read that follows, if any
 			for cj := ci + 1; cj < len(ref.Log); cj++ {
-				if ref.Log[cj].Op == "readfile" && ref.Log[cj].Path == e.Path {
+				if isReadOp(ref.Log[cj].Op) && ref.Log[cj].Path == e.Path {
 					ci, e = cj, ref.Log[cj]
 					break
 				}
@@ -530,7 +530,7 @@ func (c *c01) check(cs *Case, record bool) *Case {
 		// the read call of that path
 		call := -1
 		for i, e := range refDisk.Log {
-			if e.Op == "readfile" && filepath.Clean(e.Path) == path {
+			if isReadOp(e.Op) && filepath.Clean(e.Path) == path {
 				call = i
 				break
 			}
